@@ -339,7 +339,11 @@ func RibAddSlot(p string, slot int, o, c, fl uint64) Op {
 // in the face table? DispatchAlive is what a forwarding thread asks: is it in the dispatch table?
 // (Two structures, and neither Add nor Remove is atomic over both - the property does not ask for
 // that - so one probe reads one structure, and a thread program uses one kind of probe only.)
-// After a teardown of the face has returned the answer must be no.
+// After a teardown of the face has returned the answer must be no - and that is the only place the
+// probes are used: Remove unpublishes the face first and cleans the RIB afterwards, two steps on two
+// structures whose atomicity the property does not ask for, so a probe that OVERLAPS a teardown
+// together with the RIB effects of later commands would demand more than the text (it did, in the
+// thorough triple D2||G5||DM, before the probe was taken out of DM).
 func FaceAlive(slot int) Op {
 	return Op{"FaceProbe", fmt.Sprintf("FaceAlive(#%d)", slot), func(yield func()) string {
 		return fmt.Sprintf("table:%v", face.FaceTable.Get(addedSlot[slot]) != nil)
@@ -675,7 +679,7 @@ func All(thorough bool) []Scenario {
 		"D1": {FaceDownOwn(0)},
 		"D2": {FaceDownOwn(0), DispatchAlive(0), Lookup("/a")},
 		"D3": {FaceDownOwn(1)},
-		"D4": {FaceDownOwn(1), Lookup("/a/b/c")},
+		"D4": {FaceDownOwn(1), FaceAlive(1), Lookup("/a/b/c")},
 		"G1": {MgmtRegister("/a/b", 0, 0, 3, CI)},
 		"G2": {MgmtRegister("/d", 0, 0, 1, 0)},
 		"G3": {MgmtFibAdd("/a", 0, 9)},
@@ -685,7 +689,10 @@ func All(thorough bool) []Scenario {
 		"G7": {MgmtDestroy(1), MgmtRegister("/a", 1, 0, 4, CI)},
 		"G8": {MgmtFibRemove("/a", 0), MgmtFibAdd("/d", 1, 2)},
 		"DL": {Lookup("/a/b"), Lookup("/a")},
-		"DM": {Lookup("/d/x"), FaceAlive(0)},
+		// (one lookup only: the clean-up recomputes sibling prefixes in map order, and the property asks
+		// of EACH lookup a state between the operations overlapping it, not one state for two lookups
+		// of sibling prefixes; nested prefixes, recomputed top-down, are read by DL)
+		"DM": {Lookup("/d/x")},
 	}
 	keysD := []string{}
 	for k := range progsD {
